@@ -11,6 +11,7 @@ structure DSt where
   implDirty  : Bool := false  -- what the implementation showed last: dirty lists present / chunks present
   implChunks : Bool := false
   implK      : String := "K=-"
+  runIn      : Option (Nat × Nat) := none  -- temp-file buffer: file range where a write appended to the LAST list ran into another list
 
 def joinOr (sep : String) (xs : List String) : String := if xs.isEmpty then "-" else String.intercalate sep xs
 
@@ -57,10 +58,27 @@ def step (d : DSt) (n : Nat) (ln : Line) : DSt × List String :=
       (if st.lists.length < before.lists.length then ["COV w.lists-merged"] else []) ++
       (if before.lists.any (fun l => headOff l < off ∧ off + data.length < tailStop l) then ["COV w.splits-a-list"] else []) ++
       (if before.lists.any (fun l => off ≤ headOff l ∧ tailStop l ≤ off + data.length) then ["COV w.covers-a-list"] else [])
+    -- the situation in which a tail-append shortcut must NOT be taken: several lists, the write starts exactly at the end of the
+    -- most recently created list and runs into a list to its right; then a later write that ends strictly inside that range
+    let stopW := off + data.length
+    let appendsLast : Bool := before.tk && decide (before.lists.length ≥ 2 ∧ 0 < data.length) &&
+      (match before.lists.getLast? with | some l => decide (tailStop l = off) | none => false)
+    let newRun : Option (Nat × Nat) :=
+      if appendsLast then
+        match before.lists.dropLast.find? (fun l => off ≤ headOff l ∧ headOff l < stopW) with
+        | some l => some (headOff l, min stopW (tailStop l))
+        | none => none
+      else none
+    let cutsRun := match d.runIn with
+      | some (lo, hi) => decide (0 < data.length ∧ off < hi ∧ lo < stopW ∧ stopW < hi)
+      | none => false
+    let cov := cov ++ (if newRun.isSome then ["COV w.tmp.append-to-last-list-runs-into-right-list"] else []) ++
+      (if cutsRun then ["COV w.tmp.write-ends-inside-run-in-range"] else [])
     let iL := (o.getD 1 "L=-") != "L=-"; let iK := (o.getD 2 "K=-") != "K=-"
     let kTok := o.getD 2 "K=-"
     let h := { d.hist with savedAfterRead := d.hist.savedAfterRead ∨ (d.hist.readSeen ∧ kTok != d.implK) }
-    ({ d with m := st, file := pwrite d.file off data, hist := h, implDirty := iL, implChunks := iK, implK := kTok }, diff n ln (stateToks st) ++ cov)
+    ({ d with m := st, file := pwrite d.file off data, hist := h, implDirty := iL, implChunks := iK, implK := kTok,
+              runIn := if newRun.isSome then newRun else d.runIn }, diff n ln (stateToks st) ++ cov)
   | "t" =>
     let size := tokNat (a.getD 0 "")
     let st := truncate d.m size
